@@ -100,6 +100,26 @@ fn drive_tpl(vectors: Option<&str>, corpus: &str, rng: &mut Rng, thorough: bool,
       }
     }
   }
+  // text indented with TAB characters only: rewriting g(..) to itself, at several depths, with nested continuation lines
+  for depth in 0..=3usize {
+    for shape in 0..3 {
+      let t = "\t".repeat(depth);
+      let src = match shape {
+        0 => format!("function f() {{\n{t}const v = g({{\n{t}\ta: 1,\n{t}\tb: [\n{t}\t\t2\n{t}\t]\n{t}}});\n}}\n"),
+        1 => format!("{t}let w = g([\n{t}\t1,\n{t}\t[\n{t}\t\t2\n{t}\t]\n{t}]);\n"),
+        _ => format!("if (x) {{\n{t}\tfoo(g(function () {{\n{t}\t\treturn 1;\n{t}\t}}), 2);\n}}\n"),
+      };
+      let site = src.find("g(").unwrap();
+      {
+        if let Some(r) = tpl_record(&format!("c07tab-{depth}-{shape}"), SupportLang::JavaScript, &src, "g($A)", "g($A)", Some(site)) {
+          let mut r = r;
+          r["self"] = json!(true);
+          w.put(&r);
+          nv += 1;
+        }
+      }
+    }
+  }
   // corpus: a multi-line named node N inside a site S; pattern = S with N abstracted
   let per_file = if thorough { 12 } else { 6 };
   for (l, path, text) in util::corpus(corpus) {
